@@ -80,6 +80,8 @@ type tcase struct {
 	Script []sop      `json:"script"`
 	Iters  []iterSpec `json:"iters"`
 	Resps  [][]int64  `json:"resps"`
+	// NoSettle: do not wait for a failed writer's leaseholders to release their storage writers
+	NoSettle bool `json:"no_settle"`
 }
 
 type opOut struct {
@@ -305,6 +307,29 @@ func runSync(c tcase) (res result) {
 	return res
 }
 
+// waitReleased polls (bounded) until no engine reports a controlling writer on any of keys.
+func waitReleased(cl *mock.Cluster, keys []uint32) {
+	want := map[uint32]bool{}
+	for _, k := range keys {
+		want[k] = true
+	}
+	deadline := time.Now().Add(3 * time.Second)
+	for time.Now().Before(deadline) {
+		held := false
+		for _, nd := range cl.Nodes {
+			for _, t := range nd.Storage.TS.ControlStates().Transfers {
+				if t.To != nil && want[uint32(t.To.Resource)] {
+					held = true
+				}
+			}
+		}
+		if !held {
+			return
+		}
+		time.Sleep(2 * time.Millisecond)
+	}
+}
+
 type wpair struct {
 	dist *framer.Writer
 	ref  *cesium.Writer
@@ -473,6 +498,14 @@ func runCluster(c tcase) (res result) {
 				delete(writers, o.W)
 				if wp.ref != nil {
 					_ = wp.ref.Close()
+				}
+				if !c.NoSettle {
+					// A FAILED distribution writer returns before its peer leaseholders have
+					// released their storage writers (the pipeline is cancelled, nobody waits
+					// for the peers' streams to end). A writer opened in that window joins the
+					// stale control region and inherits its start (known finding F90). Keep the
+					// history deterministic: wait until every involved engine has let go.
+					waitReleased(cl, wp.keys)
 				}
 				break
 			}
